@@ -12,7 +12,7 @@ import (
 
 func init() {
 	register(&propDef{ID: "C14", Run: runC14,
-		Explain: "Structural necessary conditions of 'decoded headers are re-encoded without loss', decided on SSA/value flow of /repo: (1) format-taint: no network-derived string is the format operand of a fmt call; (2) decoder-errors: inside the header/URI decoders no error result of a sub-decoder or of strconv is discarded; (3) field-coverage: every field a decoder writes into a decoded type is read by that type's printer; (4) no-defaulting-printer: a printer never calls an accessor that substitutes a constant default; (5) delimiter-agreement: every constant separator a decoder strips at the level of a type (Split/Fields separators, tested-and-skipped first byte, exclusive index splits, stripped prefixes) is emitted by the printer of that type; sibling printers (Route vs Record-Route) are compared through the same rule; (6) accessor-keys: named accessors use the RFC 3261 parameter names, getter and setter alike; (7) ordered-lists: decoders only append to their lists and printers walk them with forward range loops.",
+		Explain:    "Structural necessary conditions of 'decoded headers are re-encoded without loss', decided on SSA/value flow of /repo: (1) format-taint: no network-derived string is the format operand of a fmt call; (2) decoder-errors: inside the header/URI decoders no error result of a sub-decoder or of strconv is discarded; (3) field-coverage: every field a decoder writes into a decoded type is read by that type's printer; (4) no-defaulting-printer: a printer never calls an accessor that substitutes a constant default; (5) delimiter-agreement: every constant separator a decoder strips at the level of a type (Split/Fields separators, tested-and-skipped first byte, exclusive index splits, stripped prefixes) is emitted by the printer of that type; sibling printers (Route vs Record-Route) are compared through the same rule; (6) accessor-keys: named accessors use the RFC 3261 parameter names, getter and setter alike; (7) ordered-lists: decoders only append to their lists and printers walk them with forward range loops.",
 		NotDecided: "the round-trip law itself; value-level losses these rules cannot see (';' kept in a bare addr-spec, IPv6 references, user parts containing ';' or '?', a parameter written 'name=' with an empty value)."})
 }
 
@@ -124,6 +124,7 @@ func runC14(c *Ctx) {
 	c14AccessorKeys(c)
 	c14OrderedLists(c)
 	rulePureCapture(c, "pure-capture")
+	c01PayloadImmutability(c)
 }
 
 // transformers that change the text they are given
@@ -443,6 +444,7 @@ func c14FullPrinter(c *Ctx) {
 func c14NoDefaultingPrinter(c *Ctx) {
 	w := c.w
 	rule := "no-defaulting-printer"
+	ruleFmtStringer(c, rule)
 	acc := defaultingAccessors(w)
 	if len(acc) < 3 {
 		c.undecided(rule, "accessors", "-", fmt.Sprintf("only %d defaulting accessors recognised (expected GetPort x2, GetTransport)", len(acc)))
@@ -784,6 +786,117 @@ func c14Delimiters(c *Ctx) {
 	}
 	if n < 25 {
 		c.undecided(rule, "floor", "-", fmt.Sprintf("only %d stripped separators recognised (expected >= 25): decoder idioms are not understood", n))
+	}
+	c14RequiredSeparators(c)
+}
+
+// sureEmits: instruction in writes text containing b whenever it executes (constant text of a write call, or a call to
+// a package function that does so on every path).
+func (w *World) sureEmits(in ssa.Instruction, b byte, depth int) bool {
+	call, ok := in.(ssa.CallInstruction)
+	if !ok {
+		return false
+	}
+	name := w.calleeName(call)
+	has := func(s string) bool { return strings.IndexByte(s, b) >= 0 }
+	switch {
+	case isFmtPrintf(name):
+		format, args, ok := w.fmtArgs(call)
+		if !ok {
+			return false
+		}
+		if s, isC := constString(format); isC {
+			lits := map[byte]bool{}
+			literalBytes(s, lits)
+			if lits[b] {
+				return true
+			}
+		}
+		for _, a := range args {
+			if a == nil {
+				continue
+			}
+			if s, isC := constString(a); isC && has(s) {
+				return true
+			}
+		}
+		return false
+	case name == "io.WriteString" || strings.HasSuffix(name, ").WriteString") || strings.HasSuffix(name, ").WriteByte") || name == "fmt.Fprint":
+		for _, a := range call.Common().Args {
+			for _, v := range append(varargs(a), a) {
+				if v == nil {
+					continue
+				}
+				if s, isC := constString(v); isC && has(s) {
+					return true
+				}
+				if k, isK := constInt(v); isK && byte(k) == b {
+					if bt, ok := v.Type().Underlying().(*types.Basic); ok && bt.Kind() == types.Uint8 {
+						return true
+					}
+				}
+			}
+		}
+		return false
+	}
+	callee := call.Common().StaticCallee()
+	if callee == nil || !w.isMain(callee) || callee.Blocks == nil || depth > 2 {
+		return false
+	}
+	isRet := func(x ssa.Instruction) bool { _, ok := x.(*ssa.Return); return ok }
+	return !canReach(entryPt(callee), nil, isRet, func(x ssa.Instruction) bool { return w.sureEmits(x, b, depth+1) })
+}
+
+// c14RequiredSeparators: where a decoder refuses an element that lacks its separator (URI headers need name=value),
+// the printer must write that separator for every element, not only for some (e.g. only when the value is non-empty):
+// otherwise ?subject= is re-encoded as ?subject, which the decoder itself rejects.
+func c14RequiredSeparators(c *Ctx) {
+	w := c.w
+	rule := "delimiter-agreement"
+	for _, rq := range []struct {
+		decoder, list, printer string
+		sep                     byte
+	}{{"parseUriHeader", "SIPURI.Headers", "(*SIPURI)._Write", '='}} {
+		df, pf := c.fn(rule, rq.decoder), c.fn(rule, rq.printer)
+		if df == nil || pf == nil {
+			continue
+		}
+		// premise: the decoder appends an element only when the separator was found
+		var idx *ssa.Call
+		for _, cs := range w.callsIn(df) {
+			if !indexFamily[cs.Name] {
+				continue
+			}
+			if call, ok := cs.In.(*ssa.Call); ok && len(call.Call.Args) == 2 {
+				if bb, isB := constByte(call.Call.Args[1]); isB && bb == rq.sep {
+					idx = call
+				}
+			}
+		}
+		required := false
+		if idx != nil {
+			found := func(a Atom) bool { return a.Kind == "ltk" && a.K == 0 && strip(a.X) == ssa.Value(idx) }
+			for _, st := range w.fieldStores(df, rq.list) {
+				if w.requires(df, st, found, false) {
+					required = true
+				}
+			}
+		}
+		key := fmt.Sprintf("%s/%q-for-every-element", rq.list, string(rq.sep))
+		if !required {
+			c.okTrivial(rule, key, w.pos(df.Pos()), "the decoder accepts elements without the separator: nothing to require of the printer")
+			continue
+		}
+		good := false
+		for _, rl := range rangeLoops(pf) {
+			if ref, _ := loadedField(rl.Over); ref != rq.list {
+				continue
+			}
+			// one iteration: from the top of the body back to the loop head without passing a sure write of sep
+			skip := canReach(blockStart(rl.Body), nil, isInstr(rl.If), func(x ssa.Instruction) bool { return w.sureEmits(x, rq.sep, 0) })
+			good = !skip
+		}
+		c.check(good, rule, key, w.pos(pf.Pos()), "the printer writes the separator for every element", fmt.Sprintf("%s accepts only elements containing %q, but %s does not write %q for every element of %s (e.g. only when the value is non-empty): an element with an empty value is re-encoded in a form the decoder rejects", rq.decoder, string(rq.sep), rq.printer, string(rq.sep), rq.list))
 	}
 }
 
